@@ -29,7 +29,7 @@ Record Cpl (x : subid) (g : gstate) (a : sstate) : Prop := {
   k_thr : forall p, Sub.thr a p <> Sub.SNone -> In (p, x) (senders g);
   k_pub : forall t p, pub_of (Sub.thr a t) = Some p -> p = t;
   k_copy : forall c, c < next a -> c_pub (copies a c) = c_thr (copies a c);
-  k_td : Sub.td a = TNone
+  k_td : woken (Sub.td a) = false     (* the teardown of x has not been woken: TNone or TIdle *)
 }.
 
 Ltac scases E a' :=
@@ -279,6 +279,38 @@ Qed.
 Lemma acked_in_ext a a' p : copies a' = copies a -> next a' = next a -> acked_in a' p = acked_in a p.
 Proof. unfold acked_in. now intros -> ->. Qed.
 
+(** the abstract accept, for ANY way the Sender threads of the new pairs get started: if the
+    registry's Senders grew by [new] and the instance kept its copies, the pending publications
+    grow by exactly the new publications of x *)
+Lemma accept_abs x g a g' a' new : SInv a -> Cpl x g a -> RegSend.Inv g' ->
+  senders g' = new ++ senders g -> copies a' = copies a -> next a' = next a ->
+  abs x (g', a') = pubs_of x new ++ abs x (g, a)
+  /\ tstep (abs x (g, a)) (TAcc (pubs_of x new)) = Some (abs x (g', a')).
+Proof.
+  intros Ia K Ig' E Hc Hn.
+  destruct (new_senders_fresh x g g' new Ig' E) as [Hnd Hfresh].
+  assert (Hnone : forall p, In p (pubs_of x new) -> Sub.thr a p = Sub.SNone).
+  { intros p Hp. destruct (Sub.thr a p) eqn:Et; try reflexivity; exfalso;
+      apply (Hfresh p Hp); apply (k_thr _ _ _ K); rewrite Et; discriminate. }
+  assert (Hnotacked : forall p, In p (pubs_of x new) -> acked_in a p = false).
+  { intros p Hp. destruct (acked_in a p) eqn:Ea; [|reflexivity]. exfalso.
+    apply acked_in_spec in Ea as (c & H1 & H2 & _).
+    pose proof (v_cur _ Ia c H1) as Hcur. rewrite <- (k_copy _ _ _ K c H1), H2, (Hnone p Hp) in Hcur.
+    exact Hcur. }
+  assert (Habs : abs x (g', a') = pubs_of x new ++ abs x (g, a)).
+  { unfold abs. simpl. rewrite E, pubs_of_app, filter_app. f_equal.
+    - clear -Hnotacked Hc Hn. induction (pubs_of x new) as [|y ys IH]; simpl; [reflexivity|].
+      rewrite (acked_in_ext a a' y Hc Hn), (Hnotacked y (or_introl eq_refl)). simpl.
+      f_equal. apply IH. intros p Hp. apply Hnotacked. now right.
+    - apply filter_ext. intros p. now rewrite (acked_in_ext a a' p Hc Hn). }
+  split; [exact Habs|]. simpl. rewrite Habs.
+  replace (nodupb (pubs_of x new)) with true
+    by (symmetry; apply nodupb_of_cnt; now apply cnt_le1_NoDup).
+  replace (disjointb (pubs_of x new) (abs x (g, a))) with true; [reflexivity|].
+  symmetry. apply disjointb_of. intros p Hp Hin. unfold abs in Hin. simpl in Hin.
+  apply filter_In in Hin as [Hin _]. apply in_pubs_of in Hin. now apply (Hfresh p Hp).
+Qed.
+
 (** a registry step (not Close, not the cancel / teardown of x): the spawns are enabled, the
     invariant is kept, and abstractly the topic accepts exactly the publications that got a Sender *)
 Lemma refine_b_step x g a l g' : CInv x (g, a) -> gstep g l = Some g' ->
@@ -394,7 +426,8 @@ Theorem topic_one_in_flight x st : CInv x st -> length (outstanding (snd st)) <=
 Proof.
   intros (_ & I & K). unfold outstanding. apply filter_all_equal; [apply seq_NoDup|].
   intros c1 c2 _ _ H1 H2. apply outstanding_b_Out in H1. apply outstanding_b_Out in H2.
-  apply (v_one _ I); try assumption. right. rewrite (v_closing _ I), (k_td _ _ _ K). reflexivity.
+  apply (v_one _ I); try assumption. right. rewrite (v_closing _ I). pose proof (k_td _ _ _ K) as Hw.
+  destruct (Sub.td (snd st)); try reflexivity; discriminate Hw.
 Qed.
 
 (** ** what the abstract accept corresponds to in Publish: the snapshot step of a publication to
